@@ -117,7 +117,10 @@ func (t *SymbolTable) Var(v Variable) string {
 }
 
 func (t *SymbolTable) Clone() *SymbolTable {
-	newTable := *t
+	// copy the symbols: a copy of the slice header alone would share the backing
+	// array, and two clones appending to it would overwrite each other's symbols
+	newTable := make(SymbolTable, len(*t))
+	copy(newTable, *t)
 	return &newTable
 }
 
